@@ -648,3 +648,26 @@ def run(ck):
     r4_direction(ck)
     r4_rollback_line(ck)
     r5_context_stays_intact(ck)
+    r7_every_hunk_is_visited(ck)
+
+
+def r7_every_hunk_is_visited(ck, rule="C04-R7"):
+    """Applying and undoing a file patch both walk all of its hunks: the loops of apply_modify that draw from the hunks (the trial loop
+    and the splice loop) are left only when the hunks run out.  An early exit leaves the later hunks without a report - when undoing,
+    hunks that were applied stay applied."""
+    prog = ck.prog
+    am = ck.anchor("FilePatch::<'a, &'a [u8]>::apply_modify")
+    if am is None:
+        return
+    n = 0
+    for il in pt.iterator_loops(am):
+        if "Hunk<" not in il["iter_ty"]:
+            continue
+        n += 1
+        extra = [e for e in il["exit_edges"] if e != il["none_edge"] and not am.blocks[e[1]]["cleanup"]]
+        # a `?` / return of an error is not a way of going on without the later hunks
+        extra = [e for e in extra if not ((am.blocks[e[0]]["term"]["k"] == "call") and (callee_of(am.blocks[e[0]]["term"]).get("path") or "").endswith("from_residual"))]
+        ck.require(not extra, rule, "a loop over the hunks of apply_modify ends only when the hunks run out",
+                   "the loop over %s can be left early through %s: the hunks behind that point are neither tried nor undone" % (
+                       il["iter_ty"].split("::")[-1][:50], extra), am.where(il["next_term"]), ok_detail="only exit: iterator exhausted")
+    ck.floor(rule, "loops over the hunks in apply_modify", n, 2)
